@@ -6,7 +6,7 @@ use crate::sem::{self, SemCase, Side};
 use serde_json::json;
 
 pub fn cfg() -> GenCfg {
-    GenCfg { helpers_must_exist: true, max_helpers: 4, inline_permille: 0, max_stmts: 5, simple_helper_permille: 250, ..GenCfg::default() }
+    GenCfg { helpers_must_exist: true, max_helpers: 4, inline_permille: 0, max_stmts: 5, simple_helper_permille: 250, asm_menu: true, ..GenCfg::default() }
 }
 
 fn has_branch_or_early_return(f: &crate::ast::Func) -> bool {
@@ -155,6 +155,12 @@ pub fn check(case: &SemCase, st: &mut Stats, ex: &Excl, max_variants: usize) -> 
             }
             Side::Panic(p) => {
                 st.count(&format!("variant_panic(routed to C16):{}", p));
+                continue;
+            }
+            Side::Unlinkable(u) if !u.starts_with("asm:") => {
+                // the image does not fit the harness's memory map (several copies of a big body):
+                // a limit of the harness, not of the compiler
+                st.count(&format!("variant_layout_discard:{}", u));
                 continue;
             }
             Side::Unlinkable(u) => {
